@@ -271,3 +271,56 @@ twin('C13', 'c13-twin-flipped-guard', PIPE,
      "        if desired_throughput > self.throughput:",
      "        if self.throughput < desired_throughput:",
      'a > b <-> b < a')
+
+# ------------------------------------------------------------------------- C12
+mutant('C12', 'c12-aenter-unprotected', RESOURCE,
+       "        try:\n            await self._resources.__remove_resources__(self._debits)\n        except BaseException:\n            __USIM_STATE__.loop.schedule(\n                self._resources.__insert_resources__(self._debits)\n            )\n            raise\n",
+       "        await self._resources.__remove_resources__(self._debits)\n",
+       'W BorrowedResources.__aenter__', 'the original defect F6 (acquire window)')
+mutant('C12', 'c12-aexit-unprotected', RESOURCE,
+       "            try:\n                await self.__remove_resources__(self._debits)\n            except BaseException:\n                # interrupted while giving back: finish giving back eventually\n                __USIM_STATE__.loop.schedule(\n                    self._resources.__insert_resources__(self._debits)\n                )\n                raise\n",
+       "            await self.__remove_resources__(self._debits)\n",
+       'W BorrowedResources.__aexit__', 'the original defect F6 (release window)')
+mutant('C12', 'c12-handler-exception-only', RESOURCE,
+       "            await self._resources.__remove_resources__(self._debits)\n        except BaseException:",
+       "            await self._resources.__remove_resources__(self._debits)\n        except Exception:",
+       'W BorrowedResources.__aenter__', 'signals derive from BaseException')
+mutant('C12', 'c12-genexit-forgets-parent', RESOURCE,
+       "            __USIM_STATE__.loop.schedule(\n                self.__remove_resources__(self._debits)\n            )\n            __USIM_STATE__.loop.schedule(\n                self._resources.__insert_resources__(self._debits)\n            )\n        else:",
+       "            __USIM_STATE__.loop.schedule(\n                self.__remove_resources__(self._debits)\n            )\n        else:",
+       'G', 'forced close leaks the amount')
+mutant('C12', 'c12-genexit-awaits', RESOURCE,
+       "        if exc_type is GeneratorExit:", "        if exc_type is StopIteration:",
+       'G', 'forced close tries to await')
+mutant('C12', 'c12-borrow-no-wait', RESOURCE,
+       "        if not self._resources._available >= self._debits:\n            await (self._resources._available >= self._debits)\n        # Resources",
+       "        # Resources",
+       'D', 'borrow takes what is not there: levels go negative')
+mutant('C12', 'c12-borrow-waits-for-other-amount', RESOURCE,
+       "            await (self._resources._available >= self._debits)\n",
+       "            await (self._resources._available >= self._zero)\n",
+       'S', 'waits for a different predicate than it tests')
+mutant('C12', 'c12-claim-test-inverted', RESOURCE,
+       "        if not self._resources._available >= self._debits:\n            raise ResourcesUnavailable(self)",
+       "        if self._resources._available >= self._debits:\n            raise ResourcesUnavailable(self)",
+       'S', 'claim raises when available and waits when not')
+mutant('C12', 'c12-claim-postpones-first', RESOURCE,
+       "        if not self._resources._available >= self._debits:\n            raise ResourcesUnavailable(self)\n        return await super().__aenter__()",
+       "        await self._resources._available.set(self._resources._available.value)\n        if not self._resources._available >= self._debits:\n            raise ResourcesUnavailable(self)\n        return await super().__aenter__()",
+       'C', 'claim suspends before testing')
+mutant('C12', 'c12-levels-lt-symbol', 'usim/_basics/_resource_level.py',
+       "__lt__ = __comparison_op__('__le__', '<', fields)",
+       "__lt__ = __comparison_op__('__le__', '<=', fields)",
+       'T ResourceLevels.__lt__', 'wrong generated comparison')
+mutant('C12', 'c12-levels-or-joined', 'usim/_basics/_resource_level.py',
+       'f"""        and self.{name} {op_symbol} other.{name}"""',
+       'f"""        or self.{name} {op_symbol} other.{name}"""',
+       'T template', 'comparisons no longer hold for all fields')
+mutant('C12', 'c12-aenter-double-credit', RESOURCE,
+       "            await self.__insert_resources__(self._debits)\n        except BaseException:\n            __USIM_STATE__.loop.schedule(\n                self.__remove_resources__(self._debits)\n            )\n",
+       "            await self.__insert_resources__(self._debits)\n        except BaseException:\n",
+       'W BorrowedResources.__aenter__', 'own share keeps the amount after a failed entry')
+twin('C12', 'c12-twin-flipped-predicate', RESOURCE,
+     "        if not self._resources._available >= self._debits:\n            raise ResourcesUnavailable(self)",
+     "        if not (self._resources._available >= self._debits):\n            raise ResourcesUnavailable(self)",
+     'redundant parentheses')
